@@ -1219,6 +1219,17 @@ impl C12 {
                 if tc.hyph && rb.list_after.len() != list.len() + 2 - matches!(list.last(), Some(ds::Horizontal::Glue(_))) as usize {
                     out.tag("text:hyphenated");
                 }
+                for b in &rb.bps {
+                    if let Some(ds::Horizontal::Discretionary(d)) = rb.list_after.get(*b) {
+                        if d.pre_break.is_empty() {
+                            out.tag("text:break at explicit hyphen");
+                        } else if d.replace_count > 0 {
+                            out.tag("text:break at inserted hyphen inside a ligature");
+                        } else {
+                            out.tag("text:break at inserted hyphen");
+                        }
+                    }
+                }
                 // the list that was actually broken (paragraph end appended, possibly hyphenated:
                 // discretionaries inserted, ligatures rebuilt) still spells the words
                 let mut req = String::new();
@@ -1347,7 +1358,7 @@ impl Property for C12 {
             }
         }
         // (c) random hand-built paragraphs
-        let n = if ctx.thorough { 40_000 } else { 3_000 };
+        let n = if ctx.thorough { 150_000 } else { 3_000 };
         let mut r = rng.fork();
         for _ in 0..n {
             let u: i64 = if r.chance(2, 3) { 65536 } else { 1 };
@@ -1358,7 +1369,7 @@ impl Property for C12 {
             v.push(LCase { c, items }.encode());
         }
         // (d) texts
-        let n = if ctx.thorough { 12_000 } else { 1_200 };
+        let n = if ctx.thorough { 40_000 } else { 1_200 };
         let mut r = rng.fork();
         for _ in 0..n {
             let u = 65536;
